@@ -603,11 +603,11 @@ fn build_hvcc_fmp4(config: &FragmentConfig) -> Vec<u8> {
         0, 0, 0, 0, // general_profile_compatibility_flags
         0, 0, 0, 0, 0, 0, // general_constraint_indicator_flags
         0, // general_level_idc - using default
-        0, 0, // min_spatial_segmentation_idc
-        0, // parallelismType
-        0, // chromaFormat
-        0, // bitDepthLumaMinus8
-        0, // bitDepthChromaMinus8
+        0xf0, 0x00, // reserved '1111' + min_spatial_segmentation_idc
+        0xfc, // reserved '111111' + parallelismType
+        0xfc, // reserved '111111' + chromaFormat
+        0xf8, // reserved '11111' + bitDepthLumaMinus8
+        0xf8, // reserved '11111' + bitDepthChromaMinus8
         0, 0,          // avgFrameRate
         0x07, // constantFrameRate=0, numTemporalLayers=0, temporalIdNested=1, lengthSizeMinusOne=3 (4-byte lengths)
         num_arrays, // numOfArrays
